@@ -963,6 +963,9 @@ def run(ctx):
     stream_charvalue(types, schemas, drv, add, cov, tier, rng(seed, "c16char"))
     stream_database(types, add, cov, tier, rng(seed, "c16db"))
 
+    # ---- stream 5: decode purity (every decode hands out a fresh message built from the bytes it was given)
+    stream_purity(types, add, cov, tier, rng(seed, "c16purity"))
+
     # a type outside wf_schema must come with a concrete failing input
     for t in types:
         if not t["wf"] and t["name"] not in failing_types:
@@ -1303,3 +1306,293 @@ def stream_fixture(db_t, add, cov):
         add(f"linked:fixture-schlage-to_dict:{cls}",
             f"Pdu09Database.decode(tests/test_coap_structs.py::database_schlage_encode_plus).to_dict(): {detail}", True,
             fixture="tests.test_coap_structs.database_schlage_encode_plus", impl=str(got)[:2000], expected=str(want)[:2000])
+
+
+# ---------------------------------------------------------------------------- decode purity
+# The model's decoder is a pure function of (schema, bytes).  The implementation's must be too, observably: whatever was
+# decoded before and whatever a caller did with earlier results, decode(bytes) returns a message equal to the value the
+# bytes encode, built from objects nobody else holds.  (Immutable leaves - ints, bytes, str, enum members - may be shared.)
+def _is_frozen(o) -> bool:
+    try:
+        return bool(getattr(type(o), "__dataclass_params__").frozen)
+    except Exception:  # noqa
+        return False
+
+
+def purity_state(node, o):
+    """full observable state of a decoded message: TLV fields (neutral value) + the non-TLV dataclass slots (e.g. _value)"""
+    if o is None:
+        return None
+    if not isinstance(o, node["cls"]):
+        return Bad("?" + type(o).__name__)
+    out = []
+    for name, (tag, n) in zip(node["names"], node["fields"]):
+        x = getattr(o, name)
+        if x is None:
+            out.append(None)
+        elif n["k"] == "struct":
+            out.append(purity_state(n, x))
+        elif n["k"] == "seq":
+            out.append([purity_state(n, e) for e in x] if isinstance(x, (list, tuple)) else Bad("?" + type(x).__name__))
+        else:
+            out.append(from_py(n, x))
+    extra = []
+    for f in dataclasses.fields(o):
+        if not f.init:
+            extra.append((f.name, repr(getattr(o, f.name, None))))
+    return (out, extra)
+
+
+def state_diff_path(node, a, b):
+    """dotted field path of the first difference between two purity states, None if equal"""
+    if a == b:
+        return None
+    if a is None or b is None or isinstance(a, Bad) or isinstance(b, Bad):
+        return ""
+    (fa, ea), (fb, eb) = a, b
+    for name, (tag, n), x, y in zip(node["names"], node["fields"], fa, fb):
+        if x == y:
+            continue
+        if n["k"] == "struct":
+            sub = state_diff_path(n, x, y)
+            return name + ("." + sub if sub else "")
+        if n["k"] == "seq" and isinstance(x, list) and isinstance(y, list):
+            if len(x) != len(y):
+                return name
+            for ex, ey in zip(x, y):
+                sub = state_diff_path(n, ex, ey)
+                if sub is not None:
+                    return name + ("." + sub if sub else "")
+        return name
+    for (na, va), (nb, vb) in zip(ea, eb):
+        if va != vb:
+            return na
+    return ""
+
+
+def mutable_objects(node, o, path=""):
+    """(path, object) for every mutable container of a decoded message: struct instances (unless frozen) and lists"""
+    out = []
+    if o is None or not isinstance(o, node["cls"]):
+        return out
+    if not _is_frozen(o):
+        out.append((path, o))
+    for name, (tag, n) in zip(node["names"], node["fields"]):
+        x = getattr(o, name)
+        p = (path + "." if path else "") + name
+        if x is None:
+            continue
+        if n["k"] == "struct":
+            out += mutable_objects(n, x, p)
+        elif n["k"] == "seq":
+            if isinstance(x, list):
+                out.append((p, x))
+            if isinstance(x, (list, tuple)):
+                for e in x:
+                    out += mutable_objects(n, e, p)
+        elif n["k"] == "pint" and isinstance(x, list):
+            out.append((p, x))
+    return out
+
+
+def other_value(n, x, r):
+    k = n["k"]
+    if k == "int":
+        top = (1 << (8 * n["w"])) - 1
+        return ((int(x) if x is not None else 0) + 1 + r.randrange(7)) & top
+    if k == "enum":
+        others = [m for m in n["members"] if x is None or m != int(x)]
+        return n["cls"](others[0]) if others else 255
+    if k == "str":
+        return (x or "") + "-edited"
+    if k == "bytes":
+        return b"\xee" + (bytes(x) if x is not None else b"")
+    return 1
+
+
+def mutate_message(node, o, r) -> int:
+    """edit every mutable slot of a decoded message in place (what an application is free to do with ITS copy)"""
+    n_mut = 0
+    if o is None or not isinstance(o, node["cls"]):
+        return 0
+    for name, (tag, n) in zip(node["names"], node["fields"]):
+        x = getattr(o, name, None)
+        try:
+            if n["k"] == "struct":
+                if x is not None:
+                    n_mut += mutate_message(n, x, r)
+            elif n["k"] == "seq":
+                if isinstance(x, list) and x:
+                    for e in x:
+                        n_mut += mutate_message(n, e, r)
+                    x.append(x[0])
+                    n_mut += 1
+            elif n["k"] == "pint":
+                if isinstance(x, list):
+                    x.append(7)
+                    n_mut += 1
+            elif n["k"] != "unsupp":
+                setattr(o, name, other_value(n, x, r))
+                n_mut += 1
+        except Exception:  # noqa  frozen / read-only: nothing to spoil
+            pass
+    for f in dataclasses.fields(o):
+        if not f.init:
+            try:
+                setattr(o, f.name, b"stale-from-an-earlier-decode")
+                n_mut += 1
+            except Exception:  # noqa
+                pass
+    return n_mut
+
+
+def purity_values(node, r, tier):
+    """values whose wire form repeats: random ones, lists with byte-identical elements, the empty message"""
+    out = [[None] * len(node["fields"])]
+    for _ in range(6 if tier == "quick" else 60):
+        v = strip_pint(node, rand_fields(node, r, r.choice([0.5, 0.9, 1.0])))
+        if ref.ref_fits(node["fields"], v):
+            out.append(v)
+    for _ in range(2 if tier == "quick" else 10):         # with a Sequence[int] field: only self-consistency is judged
+        v = rand_fields(node, r, 0.9)
+        if ref.ref_fits(node["fields"], v) and has_pint(node, v):
+            out.append(v)
+    for path in leaf_paths(node):                          # every list level: two and three byte-identical elements
+        if not any(node_at(node, path[:j + 1])[1]["k"] == "seq" for j in range(len(path) - 1)):
+            continue
+        tag, n = node_at(node, path)
+        if n["k"] == "pint":
+            continue
+        leaf = rand_leaf(n, tag, r)
+        for copies in (2, 3):
+            v = on_path(node, path, leaf, copies)
+            if ref.ref_fits(node["fields"], v):
+                out.append(v)
+    return out
+
+
+def stream_purity(types, add, cov, tier, r):
+    for t in types:
+        node, cls = t["node"], t["cls"]
+        for vi, vs in enumerate(purity_values(node, r, tier)):
+            wire = ref.ref_message(node["fields"], vs)
+            tag = f"{t['name']}"
+            try:
+                o1 = cls.decode(wire)
+                s1 = purity_state(node, o1)
+                o2 = cls.decode(bytes(wire))
+                s2 = purity_state(node, o2)
+            except Exception:  # noqa  (decode failures are the other streams' business)
+                continue
+            expected = fields_str(node, vs) if not has_pint(node, vs) else None
+            payload = dict(type=t["name"], bytes=hx(wire), value=fields_str(node, vs))
+            # (a) equal, but no mutable object shared between the two results or between two positions of one result
+            d = state_diff_path(node, s1, s2)
+            if d is not None:
+                add(f"purity:{tag}{'.' + d if d else ''}:unstable", f"{t['module']}.{t['name']}.decode({hx(wire)[:60]}) twice gives different messages "
+                    f"(first difference at {d or 'top'})", True, first=str(s1)[:600], second=str(s2)[:600], **payload)
+            seen = {}
+            for res_i, o in ((1, o1), (2, o2)):
+                for pth, obj in mutable_objects(node, o):
+                    if id(obj) in seen and seen[id(obj)][2] is obj:
+                        prev = seen[id(obj)]
+                        how = "two decodes of the same bytes" if prev[0] != res_i else "two positions of one decoded message"
+                        add(f"purity:{tag}{'.' + pth if pth else ''}:shared-object",
+                            f"{t['module']}.{t['name']}.decode({hx(wire)[:60]}): {how} share one mutable {type(obj).__name__} object "
+                            f"(at {prev[1] or 'top'} and {pth or 'top'}); editing one edits the other", True, **payload)
+                    else:
+                        seen[id(obj)] = (res_i, pth, obj)
+            # aliasing inside ONE result: edit the first element of every list, the others must not move
+            # (b) edit everything the caller can edit on the first result, decode the same bytes again
+            n_mut = mutate_message(node, o1, r)
+            try:
+                o3 = cls.decode(bytes(wire))
+                s3 = purity_state(node, o3)
+            except Exception as e:  # noqa
+                s3 = Bad("?" + type(e).__name__)
+            d = state_diff_path(node, s1, s3)
+            if d is not None:
+                add(f"purity:{tag}{'.' + d if d else ''}", f"{t['module']}.{t['name']}: decode({hx(wire)[:60]}), edit the returned message ({n_mut} slots), "
+                    f"decode the same bytes again: the second message differs from what the bytes encode at {d or 'top'} "
+                    f"(decode(encode(m)) != m after an earlier result was edited)", True,
+                    expected=expected, first_decode=str(s1)[:800], decode_after_edit=str(s3)[:800], mutated_slots=n_mut, **payload)
+            cov.case(f"p{t['name']}/{hx(wire)}", True, purity_type=t["name"], purity_mutated_slots=min(n_mut, 20))
+    purity_users(types, add, cov, tier, r)
+
+
+def purity_users(types, add, cov, tier, r):
+    """(c) the same through the users the property names"""
+    by_name = {t["name"]: t for t in types}
+    by_cls = {t["cls"]: t for t in types}
+    # Characteristic.value read twice, the caller edits the first result
+    try:
+        from aiohomekit.model import Accessory
+        from aiohomekit.model.characteristics.characteristic import characteristics as meta
+    except Exception:  # noqa
+        meta = {}
+    for uuid, extra in sorted(meta.items()):
+        st = extra.get("struct")
+        if st is None or st not in by_cls or extra.get("format") != "tlv8":
+            continue
+        t = by_cls[st]
+        node = t["node"]
+        for j in range(6 if tier == "quick" else 60):
+            e = strip_pint(node, rand_fields(node, r, 0.9))
+            if not (any(x is not None for x in e) and ref.ref_fits(node["fields"], e)):
+                continue
+            one = ref.ref_message(node["fields"], e)
+            raw = b"\x00\x00".join([one, one]) if extra.get("array") else one
+            try:
+                acc = Accessory(1)
+                ch = acc.add_service("00000110-0000-1000-8000-0026BB765291").add_char(uuid)
+                ch._value = base64.b64encode(raw).decode()
+                v1 = ch.value
+                items1 = v1 if isinstance(v1, list) else [v1]
+                s1 = [purity_state(node, x) for x in items1]
+                if isinstance(v1, list) and len(v1) > 1:
+                    mutate_message(node, v1[0], r)           # edit only the first of two byte-identical entries
+                    mid = [purity_state(node, x) for x in v1[1:]]
+                    if mid != s1[1:]:
+                        add(f"purity:Characteristic.value:{extra.get('name')}:aliased-entries",
+                            f"Characteristic.value of {extra.get('name')}: editing entry 0 of the returned list changed entry 1 "
+                            f"(two byte-identical entries are one object)", True, bytes=hx(raw))
+                for x in items1:
+                    mutate_message(node, x, r)
+                v2 = ch.value
+                s2 = [purity_state(node, x) for x in (v2 if isinstance(v2, list) else [v2])]
+            except Exception as ex:  # noqa
+                s1, s2 = "?", "?" + type(ex).__name__
+            if s1 != s2:
+                add(f"purity:Characteristic.value:{extra.get('name')}",
+                    f"Characteristic.value of {extra.get('name')} read twice with the caller editing the first result: the second read "
+                    f"does not give the stored value any more", True, bytes=hx(raw), first=str(s1)[:600], second=str(s2)[:600])
+            cov.case("pc" + uuid + hx(raw), True, purity_user="Characteristic.value")
+    # to_dict() of accessory-side structures after a previous decode result was edited (re-fetch after a reconnect)
+    for name in ("Pdu09Database", "Service", "Characteristic", "Pdu09Service", "Pdu09Characteristic"):
+        t = by_name.get(name)
+        if t is None or not hasattr(t["cls"], "to_dict"):
+            continue
+        node, cls = t["node"], t["cls"]
+        for j in range(8 if tier == "quick" else 80):
+            vs = strip_pint(node, rand_fields(node, r, 1.0 if j % 2 else 0.8))
+            if not ref.ref_fits(node["fields"], vs):
+                continue
+            wire = ref.ref_message(node["fields"], vs)
+
+            def view():
+                try:
+                    return repr(cls.decode(bytes(wire)).to_dict())
+                except Exception as ex:  # noqa
+                    return "raises " + type(ex).__name__
+            try:
+                first = cls.decode(wire)
+            except Exception:  # noqa
+                continue
+            before = view()
+            n_mut = mutate_message(node, first, r)
+            after = view()
+            if before != after:
+                add(f"purity:{name}.to_dict", f"{t['module']}.{name}: decode, edit the result ({n_mut} slots, incl. the raw value slots), fetch and "
+                    f"decode the same bytes again: to_dict() changed from {before[:160]} to {after[:160]}", True,
+                    bytes=hx(wire), to_dict_before=before[:3000], to_dict_after=after[:3000])
+            cov.case("pu" + name + hx(wire), True, purity_user=name + ".to_dict")
